@@ -11,223 +11,421 @@ package ggql
 //@ func ParseValue
 //@   props C03
 //@   check panic {C03}
+//@   requires[finite-input] #rd <= #N
 
 //@ func ParseValueString
 //@   props C03
 //@   check panic {C03}
-
-//@ func (*parser).readByte
-//@   props C03
-//@   check panic {C03}
-//@   requires p != nil
-
-//@ func (*parser).putBack
-//@   props C03
-//@   check panic {C03}
-//@   requires p != nil
-
-//@ func (*parser).skipBOM
-//@   props C03
-//@   check panic {C03}
-//@   requires p != nil
-
-//@ func (*parser).skipSpace
-//@   props C03
-//@   check panic {C03}
-//@   requires p != nil
-
-//@ func (*parser).readToken
-//@   props C03
-//@   check panic {C03}
-//@   requires p != nil
-
-//@ func (*parser).readNumberToken
-//@   props C03
-//@   check panic {C03}
-//@   requires p != nil
+//@   requires[finite-input] #rd <= #N
 
 //@ func (*parser).readType
+//@   decreases{C03} scanM(p)
+//@   decreases 0
 //@   props C03
 //@   check panic {C03}
 //@   requires p != nil
+//@   requires[root] p.root != nil
+//@   requires[scan] scanOk(p)
+//@   ensures[scan-ok] scanOk(p)
+//@   ensures[no-growth] scanM(p) <= old(scanM(p))
+//@   ensures[progress] t != nil ==> scanM(p) < old(scanM(p))
 
 //@ func (*parser).readDesc
 //@   props C03
 //@   check panic {C03}
 //@   requires p != nil
+//@   requires[scan] scanOk(p)
+//@   ensures[scan-ok] scanOk(p)
+//@   ensures[no-growth] scanM(p) <= old(scanM(p))
+//@   ensures[eof-discovered] p.eof && !old(p.eof) ==> scanM(p) < old(scanM(p))
+//@   ensures[progress] err == nil && old(p.onDeck) == 34 ==> scanM(p) < old(scanM(p))
+//@   loop 0: invariant[scan] scanOk(p) && scanM(p) <= old(scanM(p))
+//@           invariant[eof-discovered] p.eof && !old(p.eof) ==> scanM(p) < old(scanM(p))
 
 //@ func (*parser).readString
 //@   props C03
 //@   check panic {C03}
 //@   requires p != nil
+//@   requires[scan] scanOk(p)
+//@   ensures[scan-ok] scanOk(p)
+//@   ensures[no-growth] scanM(p) <= old(scanM(p))
+//@   ensures[eof-discovered] p.eof && !old(p.eof) ==> scanM(p) < old(scanM(p))
+//@   results res, err
+//@   ensures[progress] err == nil && old(p.onDeck) == 34 ==> scanM(p) < old(scanM(p))
+//@   loop 0: invariant[scan] scanOk(p) && scanM(p) <= old(scanM(p))
+//@           invariant[eof-discovered] p.eof && !old(p.eof) ==> scanM(p) < old(scanM(p))
+//@           invariant[progress-kept] old(p.onDeck) == 34 ==> scanM(p) < old(scanM(p))
+//@           decreases scanM(p)
+//@   loop 1: invariant[scan] scanOk(p) && scanM(p) <= old(scanM(p))
+//@           invariant[eof-discovered] p.eof && !old(p.eof) ==> scanM(p) < old(scanM(p))
+//@           invariant[progress-kept] old(p.onDeck) == 34 ==> scanM(p) < old(scanM(p))
+//@           decreases scanM(p)
 
 //@ func (*parser).readEscaped
 //@   props C03
 //@   check panic {C03}
 //@   requires p != nil
+//@   requires[scan] scanOk(p)
+//@   ensures[scan-ok] scanOk(p)
+//@   ensures[no-growth] scanM(p) <= old(scanM(p))
+//@   ensures[eof-discovered] p.eof && !old(p.eof) ==> scanM(p) < old(scanM(p))
+//@   loop 0: invariant[scan] scanOk(p) && scanM(p) <= old(scanM(p))
+//@           invariant[eof-discovered] p.eof && !old(p.eof) ==> scanM(p) < old(scanM(p))
+//@           decreases scanM(p)
 
 //@ func (*parser).readValue
+//@   -- recursion (nested lists and objects): every nested call starts after more input was consumed
+//@   decreases{C03} scanM(p)
+//@   decreases 0
 //@   props C03
 //@   check panic {C03}
 //@   requires p != nil
+//@   requires[scan] scanOk(p)
+//@   ensures[scan-ok] scanOk(p)
+//@   ensures[no-growth] scanM(p) <= old(scanM(p))
+//@   ensures[progress] err == nil && old(p.onDeck) != 0 ==> scanM(p) < old(scanM(p))
+//@   loop 0: invariant[scan] scanOk(p) && scanM(p) <= old(scanM(p))
+//@           invariant[bracket-consumed] scanM(p) < old(scanM(p))
+//@           decreases scanM(p)
+//@   loop 1: invariant[scan] scanOk(p) && scanM(p) <= old(scanM(p))
+//@           invariant[bracket-consumed] scanM(p) < old(scanM(p))
+//@           decreases scanM(p)
 
 //@ func (*parser).readDirUses
 //@   props C03
 //@   check panic {C03}
 //@   requires p != nil
+//@   requires[root] p.root != nil
+//@   requires[scan] scanOk(p)
+//@   ensures[scan-ok] scanOk(p)
+//@   ensures[no-growth] scanM(p) <= old(scanM(p))
+//@   loop 0: invariant[scan] scanOk(p) && scanM(p) <= old(scanM(p))
+//@           decreases scanM(p)
 
 //@ func (*parser).readDirUse
 //@   props C03
 //@   check panic {C03}
 //@   requires p != nil
+//@   requires[root] p.root != nil
+//@   requires[scan] scanOk(p)
+//@   ensures[scan-ok] scanOk(p)
+//@   ensures[no-growth] scanM(p) <= old(scanM(p))
+//@   ensures[progress] du != nil ==> scanM(p) < old(scanM(p))
+//@   loop 0: invariant[scan] scanOk(p) && scanM(p) <= old(scanM(p))
+//@           decreases scanM(p)
+//@   loop 1: invariant[scan] scanOk(p) && scanM(p) <= old(scanM(p))
 
 //@ func (*parser).readArgValues
 //@   props C03
 //@   check panic {C03}
 //@   requires p != nil
+//@   requires[scan] scanOk(p)
+//@   ensures[scan-ok] scanOk(p)
+//@   ensures[no-growth] scanM(p) <= old(scanM(p))
+//@   loop 0: invariant[scan] scanOk(p) && scanM(p) <= old(scanM(p))
+//@           decreases scanM(p)
 
 //@ func (*parser).readArgValue
 //@   props C03
 //@   check panic {C03}
 //@   requires p != nil
+//@   requires[scan] scanOk(p)
+//@   ensures[scan-ok] scanOk(p)
+//@   ensures[no-growth] scanM(p) <= old(scanM(p))
+//@   ensures[progress] err == nil ==> scanM(p) < old(scanM(p))
 //@   ensures[shape] err == nil ==> av != nil
 
 //@ func parseSDL
 //@   props C03
 //@   check panic {C03}
+//@   requires[finite-input] #rd <= #N
 //@   requires root != nil
+//@   -- every round of the definition loop consumes input or discovers the end of the input
+//@   loop 0: invariant[scan] scanOk(addrof(p).parser) && addrof(p).root == root
+//@           decreases scanM(addrof(p).parser)
+//@   loop 1: invariant[scan] scanOk(addrof(p).parser) && addrof(p).root == root
+//@           invariant[inside-outer] err == nil ==> scanM(addrof(p).parser) <= atouter(scanM(addrof(p).parser))
+//@           invariant[eof-discovered] err == nil && addrof(p).parser.eof && !atouter(addrof(p).parser.eof) ==> scanM(addrof(p).parser) < atouter(scanM(addrof(p).parser))
+//@           decreases scanM(addrof(p).parser)
+//@           decreases ite(err == nil, 1, 0)
 
 //@ func (*sdlParser).readDirective
 //@   props C03
 //@   check panic {C03}
 //@   requires p != nil
+//@   requires[root] p.root != nil
+//@   requires[scan] scanOk(p.parser)
+//@   ensures[scan-ok] scanOk(p.parser)
+//@   ensures[no-growth] scanM(p.parser) <= old(scanM(p.parser))
+//@   loop 0: invariant[scan] scanOk(p.parser) && scanM(p.parser) <= old(scanM(p.parser))
+//@           decreases scanM(p.parser)
 
 //@ func (*sdlParser).readEnum
 //@   props C03
 //@   check panic {C03}
 //@   requires p != nil
+//@   requires[root] p.root != nil
+//@   requires[scan] scanOk(p.parser)
+//@   ensures[scan-ok] scanOk(p.parser)
+//@   ensures[no-growth] scanM(p.parser) <= old(scanM(p.parser))
+//@   loop 0: invariant[scan] scanOk(p.parser) && scanM(p.parser) <= old(scanM(p.parser))
+//@           decreases scanM(p.parser)
 
 //@ func (*sdlParser).readEnumValue
 //@   props C03
 //@   check panic {C03}
 //@   requires p != nil
+//@   requires[root] p.root != nil
+//@   requires[scan] scanOk(p.parser)
+//@   ensures[scan-ok] scanOk(p.parser)
+//@   ensures[no-growth] scanM(p.parser) <= old(scanM(p.parser))
+//@   ensures[progress] err == nil ==> scanM(p.parser) < old(scanM(p.parser))
 //@   ensures[shape] err == nil ==> ev != nil
+//@   loop 0: invariant[scan] scanOk(p.parser) && scanM(p.parser) <= old(scanM(p.parser))
+//@           invariant[progress-kept] scanM(p.parser) < old(scanM(p.parser))
+//@           decreases scanM(p.parser)
 
 //@ func (*sdlParser).readInput
 //@   props C03
 //@   check panic {C03}
 //@   requires p != nil
+//@   requires[root] p.root != nil
+//@   requires[scan] scanOk(p.parser)
+//@   ensures[scan-ok] scanOk(p.parser)
+//@   ensures[no-growth] scanM(p.parser) <= old(scanM(p.parser))
 
 //@ func (*sdlParser).readInterface
 //@   props C03
 //@   check panic {C03}
 //@   requires p != nil
+//@   requires[root] p.root != nil
+//@   requires[scan] scanOk(p.parser)
+//@   ensures[scan-ok] scanOk(p.parser)
+//@   ensures[no-growth] scanM(p.parser) <= old(scanM(p.parser))
 
 //@ func (*sdlParser).readScalar
 //@   props C03
 //@   check panic {C03}
 //@   requires p != nil
+//@   requires[root] p.root != nil
+//@   requires[scan] scanOk(p.parser)
+//@   ensures[scan-ok] scanOk(p.parser)
+//@   ensures[no-growth] scanM(p.parser) <= old(scanM(p.parser))
 
 //@ func (*sdlParser).readSchema
 //@   props C03
 //@   check panic {C03}
 //@   requires p != nil
+//@   requires[root] p.root != nil
+//@   requires[scan] scanOk(p.parser)
+//@   ensures[scan-ok] scanOk(p.parser)
+//@   ensures[no-growth] scanM(p.parser) <= old(scanM(p.parser))
 //@   requires p.root != nil
 
 //@ func (*sdlParser).readObject
 //@   props C03
 //@   check panic {C03}
 //@   requires p != nil
+//@   requires[root] p.root != nil
+//@   requires[scan] scanOk(p.parser)
+//@   ensures[scan-ok] scanOk(p.parser)
+//@   ensures[no-growth] scanM(p.parser) <= old(scanM(p.parser))
 
 //@ func (*sdlParser).readUnion
 //@   props C03
 //@   check panic {C03}
 //@   requires p != nil
+//@   requires[root] p.root != nil
+//@   requires[scan] scanOk(p.parser)
+//@   ensures[scan-ok] scanOk(p.parser)
+//@   ensures[no-growth] scanM(p.parser) <= old(scanM(p.parser))
+//@   loop 0: invariant[scan] scanOk(p.parser) && scanM(p.parser) <= old(scanM(p.parser))
+//@           decreases scanM(p.parser)
 
 //@ func (*sdlParser).readArgs
 //@   props C03
 //@   check panic {C03}
 //@   requires p != nil
+//@   requires[root] p.root != nil
+//@   requires[scan] scanOk(p.parser)
+//@   ensures[scan-ok] scanOk(p.parser)
+//@   ensures[no-growth] scanM(p.parser) <= old(scanM(p.parser))
 //@   requires args != nil
+//@   loop 0: invariant[scan] scanOk(p.parser) && scanM(p.parser) <= old(scanM(p.parser))
+//@           decreases scanM(p.parser)
 
 //@ func (*sdlParser).readArg
 //@   props C03
 //@   check panic {C03}
 //@   requires p != nil
+//@   requires[root] p.root != nil
+//@   requires[scan] scanOk(p.parser)
+//@   ensures[scan-ok] scanOk(p.parser)
+//@   ensures[no-growth] scanM(p.parser) <= old(scanM(p.parser))
+//@   ensures[progress] err == nil ==> scanM(p.parser) < old(scanM(p.parser))
 //@   ensures[shape] err == nil ==> arg != nil
+//@   loop 0: invariant[scan] scanOk(p.parser) && scanM(p.parser) <= old(scanM(p.parser))
+//@           invariant[progress-kept] scanM(p.parser) < old(scanM(p.parser))
+//@           decreases scanM(p.parser)
 
 //@ func (*sdlParser).readFields
 //@   props C03
 //@   check panic {C03}
 //@   requires p != nil
+//@   requires[root] p.root != nil
+//@   requires[scan] scanOk(p.parser)
+//@   ensures[scan-ok] scanOk(p.parser)
+//@   ensures[no-growth] scanM(p.parser) <= old(scanM(p.parser))
 //@   requires fields != nil
+//@   loop 0: invariant[scan] scanOk(p.parser) && scanM(p.parser) <= old(scanM(p.parser))
+//@           decreases scanM(p.parser)
 
 //@ func (*sdlParser).readField
 //@   props C03
 //@   check panic {C03}
 //@   requires p != nil
+//@   requires[root] p.root != nil
+//@   requires[scan] scanOk(p.parser)
+//@   ensures[scan-ok] scanOk(p.parser)
+//@   ensures[no-growth] scanM(p.parser) <= old(scanM(p.parser))
+//@   ensures[progress] err == nil && f != nil ==> scanM(p.parser) < old(scanM(p.parser))
+//@   loop 0: invariant[scan] scanOk(p.parser) && scanM(p.parser) <= old(scanM(p.parser))
+//@           invariant[progress-kept] scanM(p.parser) < old(scanM(p.parser))
+//@           decreases scanM(p.parser)
 
 //@ func (*sdlParser).readInputFields
 //@   props C03
 //@   check panic {C03}
 //@   requires p != nil
+//@   requires[root] p.root != nil
+//@   requires[scan] scanOk(p.parser)
+//@   ensures[scan-ok] scanOk(p.parser)
+//@   ensures[no-growth] scanM(p.parser) <= old(scanM(p.parser))
 //@   requires fields != nil
+//@   loop 0: invariant[scan] scanOk(p.parser) && scanM(p.parser) <= old(scanM(p.parser))
+//@           decreases scanM(p.parser)
 
 //@ func (*sdlParser).readInputField
 //@   props C03
 //@   check panic {C03}
 //@   requires p != nil
+//@   requires[root] p.root != nil
+//@   requires[scan] scanOk(p.parser)
+//@   ensures[scan-ok] scanOk(p.parser)
+//@   ensures[no-growth] scanM(p.parser) <= old(scanM(p.parser))
+//@   ensures[progress] err == nil && f != nil ==> scanM(p.parser) < old(scanM(p.parser))
+//@   loop 0: invariant[scan] scanOk(p.parser) && scanM(p.parser) <= old(scanM(p.parser))
+//@           invariant[progress-kept] scanM(p.parser) < old(scanM(p.parser))
+//@           decreases scanM(p.parser)
 
 //@ func (*sdlParser).readImplements
 //@   props C03
 //@   check panic {C03}
 //@   requires p != nil
+//@   requires[root] p.root != nil
+//@   requires[scan] scanOk(p.parser)
+//@   ensures[scan-ok] scanOk(p.parser)
+//@   ensures[no-growth] scanM(p.parser) <= old(scanM(p.parser))
+//@   loop 0: invariant[scan] scanOk(p.parser) && scanM(p.parser) <= old(scanM(p.parser))
+//@           decreases scanM(p.parser)
+//@           decreases ite(err == nil, 1, 0)
 
 //@ func parseExe
 //@   props C03
 //@   check panic {C03}
+//@   requires root != nil
+//@   requires[finite-input] #rd <= #N
+//@   loop 0: invariant[scan] scanOk(addrof(p).parser) && addrof(p).root == root && addrof(p).exe != nil
+//@           decreases scanM(addrof(p).parser)
+//@           decreases ite(err == nil, 1, 0)
 
 //@ func (*exeParser).readOp
 //@   props C03
 //@   check panic {C03}
 //@   requires p != nil
+//@   requires[root] p.root != nil
+//@   requires[scan] scanOk(p.parser)
+//@   ensures[scan-ok] scanOk(p.parser)
+//@   ensures[no-growth] scanM(p.parser) <= old(scanM(p.parser))
 //@   requires p.exe != nil
 //@   ensures[shape] op != nil
 
 //@ func (*exeParser).readSelectionSet
+//@   decreases{C03} scanM(p.parser)
+//@   decreases 2
 //@   props C03
 //@   check panic {C03}
 //@   requires p != nil
+//@   requires[root] p.root != nil
+//@   requires[scan] scanOk(p.parser)
+//@   ensures[scan-ok] scanOk(p.parser)
+//@   ensures[no-growth] scanM(p.parser) <= old(scanM(p.parser))
+//@   ensures[progress-brace] old(p.onDeck) == 123 && err == nil ==> scanM(p.parser) < old(scanM(p.parser))
 //@   requires p.exe != nil
+//@   loop 0: invariant[scan] scanOk(p.parser) && scanM(p.parser) <= old(scanM(p.parser))
+//@           invariant[progress-kept] err == nil ==> scanM(p.parser) < old(scanM(p.parser))
+//@           decreases scanM(p.parser)
+//@           decreases ite(err == nil, 1, 0)
 
 //@ func (*exeParser).readField
+//@   decreases{C03} scanM(p.parser)
+//@   decreases 1
 //@   props C03
 //@   check panic {C03}
 //@   requires p != nil
+//@   requires[root] p.root != nil
+//@   requires[scan] scanOk(p.parser)
+//@   ensures[scan-ok] scanOk(p.parser)
+//@   ensures[no-growth] scanM(p.parser) <= old(scanM(p.parser))
+//@   ensures[progress] err == nil ==> scanM(p.parser) < old(scanM(p.parser))
 //@   requires p.exe != nil
 
 //@ func (*exeParser).readFragment
+//@   decreases{C03} scanM(p.parser)
+//@   decreases 1
 //@   props C03
 //@   check panic {C03}
 //@   requires p != nil
+//@   requires[root] p.root != nil
+//@   requires[scan] scanOk(p.parser)
+//@   ensures[scan-ok] scanOk(p.parser)
+//@   ensures[no-growth] scanM(p.parser) <= old(scanM(p.parser))
+//@   ensures[progress] err == nil ==> scanM(p.parser) < old(scanM(p.parser))
 //@   requires p.exe != nil
+//@   loop 0: invariant[scan] scanOk(p.parser) && scanM(p.parser) <= old(scanM(p.parser))
+//@           invariant[dots] i <= 3 && (i < 3 ==> scanM(p.parser) < old(scanM(p.parser)))
+//@           decreases scanM(p.parser)
 
 //@ func (*exeParser).readFragRef
 //@   props C03
 //@   check panic {C03}
 //@   requires p != nil
+//@   requires[root] p.root != nil
+//@   requires[scan] scanOk(p.parser)
+//@   ensures[scan-ok] scanOk(p.parser)
+//@   ensures[no-growth] scanM(p.parser) <= old(scanM(p.parser))
 //@   requires p.exe != nil
 
 //@ func (*exeParser).readInline
+//@   decreases{C03} scanM(p.parser)
+//@   decreases 3
 //@   props C03
 //@   check panic {C03}
 //@   requires p != nil
+//@   requires[root] p.root != nil
+//@   requires[scan] scanOk(p.parser)
+//@   ensures[scan-ok] scanOk(p.parser)
+//@   ensures[no-growth] scanM(p.parser) <= old(scanM(p.parser))
 //@   requires p.exe != nil
 
 //@ func (*exeParser).readFragmentDef
 //@   props C03
 //@   check panic {C03}
 //@   requires p != nil
+//@   requires[root] p.root != nil
+//@   requires[scan] scanOk(p.parser)
+//@   ensures[scan-ok] scanOk(p.parser)
+//@   ensures[no-growth] scanM(p.parser) <= old(scanM(p.parser))
 //@   requires p.exe != nil
 //@   ensures[shape] err == nil ==> frag != nil
 
@@ -235,9 +433,21 @@ package ggql
 //@   props C03
 //@   check panic {C03}
 //@   requires p != nil
+//@   requires[root] p.root != nil
+//@   requires[scan] scanOk(p.parser)
+//@   ensures[scan-ok] scanOk(p.parser)
+//@   ensures[no-growth] scanM(p.parser) <= old(scanM(p.parser))
+//@   loop 0: invariant[scan] scanOk(p.parser) && scanM(p.parser) <= old(scanM(p.parser))
+//@           decreases scanM(p.parser)
 
 //@ func (*exeParser).readVarDef
 //@   props C03
 //@   check panic {C03}
 //@   requires p != nil
+//@   requires[root] p.root != nil
+//@   requires[scan] scanOk(p.parser)
+//@   ensures[scan-ok] scanOk(p.parser)
+//@   ensures[no-growth] scanM(p.parser) <= old(scanM(p.parser))
+//@   ensures[progress] err == nil ==> scanM(p.parser) < old(scanM(p.parser))
+
 
